@@ -190,7 +190,8 @@ static void drainAndJoin() {
   bool useSelect = simdrv::knob(*C.spec, "drain_with_select", 0) != 0;
   while (open) {
     if (open == Process::stdoutStream && !useSelect) { ssize_t r = C.proc->read(buf, sizeof buf); if (r < 0) fail("C20/read_failed", "read(stdout) failed although the stream is open"); if (r == 0) { C.outEof = true; open = 0; } else peerCheckParentRead(1, buf, r); continue; }
-    uint st = open; ssize_t r = C.proc->read(buf, 1 + simdrv::knob(*C.spec, "read_chunk", 4095) % 4096, st);
+    uint st = open; if (simdrv::knob(*C.spec, "full_mask", 0)) { st = Process::stdoutStream | Process::stderrStream; if (st != open) probe("read_full_mask_with_closed_stream"); }   /* the usual read loop keeps asking for both streams after it closed one at end-of-file */
+    ssize_t r = C.proc->read(buf, 1 + simdrv::knob(*C.spec, "read_chunk", 4095) % 4096, st);
     if (r < 0) fail("C20/read_failed", "read(streams=%u) failed although the streams are open", open);
     if (st != Process::stdoutStream && st != Process::stderrStream) fail("C20/read_stream_id", "read reported stream id %u", st);
     if (r == 0) { if (st == Process::stdoutStream) C.outEof = true; else C.errEof = true; open &= ~st; C.proc->close(st); } else peerCheckParentRead(st == Process::stdoutStream ? 1 : 2, buf, r);
@@ -224,7 +225,7 @@ static void drainAndJoin() {
 
 static void mainTask(void*) {
   const RunSpec& s = *C.spec;
-  simproc::setPipeCapacity((size_t)simdrv::knob(s, "pipe_cap", 65536));
+  simproc::setPipeCapacity((size_t)simdrv::knob(s, "pipe_cap", 65536)); simproc::setStdinReadable(simdrv::knob(s, "stdin_readable", 0) != 0);
   simproc::setChildMain(childProgram);
   if (simdrv::knob(s, "mode", 0) == 1) { for (size_t i = 0; i < s.plan.size(); ++i) if (s.plan[i].code == A_PARSE) argumentsOp((uint64_t)s.plan[i].a[0] * 1000003ULL + (uint64_t)s.plan[i].a[1]); C.parentDone = true; return; }
   C.proc = new Process;
@@ -259,7 +260,7 @@ static void generate(RunSpec& s, int tier) {
   auto r = [&](uint64_t n) { z += 0x9e3779b97f4a7c15ULL; uint64_t x = z; x = (x ^ (x >> 30)) * 0xbf58476d1ce4e5b9ULL; x = (x ^ (x >> 27)) * 0x94d049bb133111ebULL; x ^= x >> 31; return n ? x % n : x; };
   int mode = r(4) == 0 ? 1 : 0; s.knobs["mode"] = mode;
   if (mode == 1) { int n = 1 + (int)r(12); for (int i = 0; i < n; ++i) { Op o; o.task = 0; o.code = A_PARSE; o.a[0] = (int64_t)r(1u << 30); o.a[1] = (int64_t)r(1u << 30); o.a[2] = o.a[3] = 0; s.plan.push_back(o); } return; }
-  static const int caps[] = {1, 16, 512, 4096, 65536}; s.knobs["pipe_cap"] = caps[r(5)]; s.knobs["exit_code"] = r(4) == 0 ? r(256) : r(3); s.knobs["drain_with_select"] = r(2); s.knobs["read_chunk"] = r(4096); s.knobs["kill_instead_of_join"] = r(10) == 0;
+  static const int caps[] = {1, 16, 512, 4096, 65536}; s.knobs["pipe_cap"] = caps[r(5)]; s.knobs["exit_code"] = r(4) == 0 ? r(256) : r(3); s.knobs["drain_with_select"] = r(2); s.knobs["read_chunk"] = r(4096); s.knobs["kill_instead_of_join"] = r(10) == 0; s.knobs["stdin_readable"] = r(2); s.knobs["full_mask"] = r(2);
   static const int pct[] = {0, 0, 10, 30}; s.knobs["pipe_fault_pct"] = pct[r(4)]; s.knobs["eintr_pct"] = r(3) == 0 ? 5 : 0; s.knobs["exec_fail_pct"] = r(8) == 0 ? 100 : 0; s.knobs["second_process"] = r(3) == 0 ? 1 + r(3) : 0;
   static const int synck[] = {0, 1, 2, 4}; s.knobs["sync_switch_log2"] = synck[r(4)]; static const int memk[] = {255, 255, 8, 5}; s.knobs["mem_switch_log2"] = memk[r(4)];
   { Op o; o.task = 0; o.code = P_OPEN; o.a[0] = (int64_t)r(6); o.a[1] = (int64_t)r(8); o.a[2] = (int64_t)r(4); o.a[3] = (int64_t)r(1u << 30); s.plan.push_back(o); }
